@@ -39,6 +39,7 @@ class Gen:
         self.r = r
         self.budget = 40
         self.keys = []
+        self.asets = []          # names of attribute sets
         self.named = []          # (name, [param names], recursive?)
         self.globals = {}        # name -> type
         self.uid = 0
@@ -367,9 +368,13 @@ class Gen:
                 if an not in used:
                     used.add(an)
                     attrs.append((an, self.avt(env, 1)))
+            if self.asets and r.random() < 0.3:
+                return ("lre", name, attrs, self.body(cx, dict(env), d - 1, in_elem=True), r.sample(self.asets, r.choice([1, 1, 2][:len(self.asets) + 1] or [1])))
             return ("lre", name, attrs, self.body(cx, dict(env), d - 1, in_elem=True))
         if k < 0.47:
             nm = [r.choice(["e", "h", "p:h"])] if r.random() < 0.6 else ["n", ("x", fn("count", P([("child", "node", [])])))]
+            if self.asets and r.random() < 0.3:
+                return ("element", nm, self.body(cx, dict(env), d - 1, in_elem=True), [r.choice(self.asets)])
             return ("element", nm, self.body(cx, dict(env), d - 1, in_elem=True))
         if k < 0.5:
             return ("comment", self.text_body(env, d))
@@ -567,6 +572,25 @@ class Gen:
             self.named.append((name, pnames, rec, i))
         return tops
 
+    def attribute_sets(self, genv, prefix, n):
+        """top-level xsl:attribute-set elements; only top-level bindings are visible in them (7.1.4)"""
+        r = self.r
+        tops = []
+        genv = dict(genv, **{"#nopos": True})
+        for i in range(n):
+            name = "%s%d" % (prefix, i)
+            uses = r.sample(self.asets, r.choice([0, 0, 1])) if self.asets else []
+            attrs = []
+            for _ in range(r.choice([1, 1, 2, 3])):
+                attrs.append(([r.choice(["k", "m", "x", "s", "p:w"])], self.text_body(genv, 1)))
+            gnames = [n for n, t in genv.items() if not n.startswith("#") and t in ("str", "num", "bool", "rtf")]
+            if gnames:
+                # only top-level bindings are visible here, whatever locals shadow them where the set is used
+                attrs.append((["gv"], [("value-of", fn("string", ("var", r.choice(gnames))))]))
+            tops.append(("attribute-set", name, uses, attrs))
+            self.asets.append(name)
+        return tops
+
     def sheet(self):
         r = self.r
         genv = {}
@@ -587,8 +611,15 @@ class Gen:
                 sub["tops"] = self.module(False, genv) + self.templates(genv, False)
                 imports.append(sub)
         gl = self.module(True, genv)
+        sets = []
+        if r.random() < 0.3:
+            sets = self.attribute_sets(genv, "s", r.choice([1, 2, 3]))
+            if r.random() < 0.3:
+                # a second definition of an existing set: merged with the first (the later one wins a clash)
+                nm = r.choice(self.asets)
+                sets.append(("attribute-set", nm, [], [([r.choice(["k", "m", "z"])], self.text_body(dict(genv, **{"#nopos": True}), 1))]))
         named = self.named_templates(genv)
-        main = {"imports": imports, "tops": keytop + gl + named}
+        main = {"imports": imports, "tops": keytop + gl + sets + named}
         tl = self.templates(genv, True)
         if r.random() < 0.2 and len(tl) > 1:
             cut = r.randrange(1, len(tl))
@@ -654,9 +685,11 @@ def p_body(body):
 def p_instr(i):
     k = i[0]
     if k == "lre":
-        return "<%s%s>%s</%s>" % (i[1], "".join(' %s="%s"' % (a, p_avt(v)) for a, v in i[2]), p_body(i[3]), i[1])
+        uses = ' xsl:use-attribute-sets="%s"' % " ".join(i[4]) if len(i) > 4 and i[4] else ""
+        return "<%s%s%s>%s</%s>" % (i[1], uses, "".join(' %s="%s"' % (a, p_avt(v)) for a, v in i[2]), p_body(i[3]), i[1])
     if k == "element":
-        return '<xsl:element name="%s">%s</xsl:element>' % (p_avt(i[1]), p_body(i[2]))
+        uses = ' use-attribute-sets="%s"' % " ".join(i[3]) if len(i) > 3 and i[3] else ""
+        return '<xsl:element name="%s"%s>%s</xsl:element>' % (p_avt(i[1]), uses, p_body(i[2]))
     if k == "attribute":
         return '<xsl:attribute name="%s">%s</xsl:attribute>' % (p_avt(i[1]), p_body(i[2]))
     if k == "text":
@@ -714,6 +747,10 @@ def p_top(t, files, counter):
         return p_vdef(t[0], t[1], t[2])
     if t[0] == "key":
         return '<xsl:key name="%s" match="%s" use="%s"/>' % (t[1], p_pattern(t[2]), px(t[3]))
+    if t[0] == "attribute-set":
+        return '<xsl:attribute-set name="%s"%s>%s</xsl:attribute-set>' % (
+            t[1], ' use-attribute-sets="%s"' % " ".join(t[2]) if t[2] else "",
+            "".join('<xsl:attribute name="%s">%s</xsl:attribute>' % (p_avt(a), p_body(b)) for a, b in t[3]))
     if t[0] == "include":
         counter[0] += 1
         name = "inc%d.xsl" % counter[0]
